@@ -80,6 +80,15 @@ abbrev ScnStep := Bytes × Int
 
 def sleepName : Bytes := [115, 108, 101, 101, 112]
 
+/-- `config.MaxScenarioRequests` (1eaf10a; regenerated: `Gen.C13Src.maxScenarioRequests`) -/
+def maxScenarioRequests : Int := 1048576
+
+/-- `config.MaxSpreadSize` (4cfc662; regenerated: `Gen.C13Src.maxSpreadSize`) -/
+def maxSpreadSize : Int := 16777216
+
+/-- `templater.maxRandStringLength` (28b7d1e; regenerated: `Gen.C13Src.maxRandStringLength`) -/
+def maxRandStringLength : Int := 16777216
+
 /-- `result.Requests[len(result.Requests)-1].Sleep += cnt` on the list built so far (kept reversed: head = last) -/
 def addSleep (fixed : Bool) (acc : List ScnStep) (cnt : Int) : Res (List ScnStep) :=
   match acc with
@@ -100,7 +109,9 @@ def expandGo (fixed : Bool) (known : Bytes → Bool) : List Bytes → List ScnSt
       else if !known name then .err "unknown-request"
       else
         let r : ScnStep := (name, if sleep > 0 then sleep else 0)
-        expandGo fixed known rest (List.replicate cnt.toNat r ++ acc)
+        -- 1eaf10a: `if cnt > config.MaxScenarioRequests-len(result.Requests) { return nil, … }` in front of the append loop
+        if fixed && decide (cnt > maxScenarioRequests - (acc.length : Int)) then .err "too-many-requests"
+        else expandGo fixed known rest (List.replicate cnt.toNat r ++ acc)
     | .err c => .err c
     | .panic w => .panic w
     | .fatal w => .fatal w
@@ -429,15 +440,22 @@ def makeCapC (size : Int) : Res Unit :=
   else if size * 8 > memCap then .fatal "out of memory"
   else .ok ()
 
+/-- `config.CheckSpread(names, total)`: `true` = an error is returned (scenario names are distinct: the map holds the counts) -/
+def checkSpread (counts : List Int) (total : Int) : Bool :=
+  decide (total < 0 ∨ total > maxSpreadSize) || counts.any (fun c => decide (c < 0 ∨ c > maxSpreadSize))
+
 /-- `decodeAmmo` (http and grpc scenario providers) as far as the weights go: the copies per scenario.
-The sum is taken without wrap-around (a wrapped total needs more than 2^63 copies). -/
+`fixed = false` (before 4cfc662): the sum is taken without wrap-around and nothing stands between it and the `make`. -/
 def spread (fixed : Bool) (weights : List Int) : Res (List Int) :=
   if fixed && weights.any (fun w => decide (w < 0)) then .err "weight"
   else match spreadCounts weights with
     | .ok counts =>
-      match makeCapC (sumInt counts) with
-      | .ok () => .ok counts
-      | r => r.castFail
+      -- 4cfc662: `total += cnt` on a Go int wraps around; `CheckSpread(names, total)` stands in front of the `make`
+      let total := if fixed then wrap64 (sumInt counts) else sumInt counts
+      if fixed && checkSpread counts total then .err "spread"
+      else match makeCapC total with
+        | .ok () => .ok counts
+        | r => r.castFail
     | r => r
 
 /-! ### `templater.randString`, `str.RandStringRunes` -/
@@ -461,6 +479,8 @@ def pickLetter (nLetters : Nat) (rnd : Nat) : Res Nat :=
 def randStringLen (fixed : Bool) (n : Int) : Res Nat :=
   let n := if n = 0 then 1 else n
   if fixed && decide (n < 0) then .err "length"
+  -- 28b7d1e: `if n > maxRandStringLength { return "", … }`
+  else if fixed && decide (n > maxRandStringLength) then .err "length"
   else match makeRunesC n with
     | .ok () => .ok n.toNat
     | r => r.castFail
